@@ -127,28 +127,6 @@ theorem done_always_cancels (ops : List Op) (k j : Nat) (g : Gen)
 def procInit (key : Nat) (probe internal : Bool) : Proc :=
   { key := key, failureProbe := probe, internal := internal }
 
-theorem loopInv_events (limit : Nat) (p : Proc) (evs : List PEvent) (h : LoopInv limit p) :
-    LoopInv limit (evs.foldl (Proc.apply limit) p) := by
-  induction evs generalizing p with
-  | nil => exact h
-  | cons e es ih =>
-    simp only [List.foldl_cons]
-    apply ih
-    cases e with
-    | obs o => exact loopInv_step limit p o h
-    | ctxEnd d => exact loopInv_endCtx limit p d h
-
-theorem outInv_events (limit : Nat) (p : Proc) (evs : List PEvent) (h : OutInv p) :
-    OutInv (evs.foldl (Proc.apply limit) p) := by
-  induction evs generalizing p with
-  | nil => exact h
-  | cons e es ih =>
-    simp only [List.foldl_cons]
-    apply ih
-    cases e with
-    | obs o => exact outInv_step limit p o h
-    | ctxEnd d => exact outInv_endCtx p d h
-
 /-- **The dedup loop terminates with an explicit bound.**  Whatever the wait
 group answers, whatever the cache holds and whenever the client's context
 ends (an arbitrary event stream), a request enters the loop head at most
